@@ -357,6 +357,10 @@ def to_iter(it, v):
         return ItOwned(v.fields)
     if isinstance(v, Agg) and v.kind == "adt:Option":
         return ItOwned(list(v.fields) if v.variant == 1 else [])
+    if isinstance(v, SMap):
+        if v.oracle is not None:
+            raise Unsupported("iteration over an oracle-backed map")
+        return ItOwned([Agg("tuple", None, [SString(k), x]) for k, x in v.entries])
     if isinstance(v, Agg) and v.kind == "adt:Range":
         return ItRange(v.fields[0], v.fields[1])
     if isinstance(v, Agg) and v.kind == "adt:RangeFrom":
@@ -365,6 +369,8 @@ def to_iter(it, v):
         return ItRange(v.fields[0], add_vals(v.fields[1], 1))
     if isinstance(v, Ref):
         t = v.get()
+        if isinstance(t, It):
+            return t
         if isinstance(t, SVec):
             return ItSlice(t.items, 0, len(t.items), v.mut)
         if isinstance(t, Agg) and t.kind == "array":
@@ -601,6 +607,9 @@ def register_all(M):
 
     @reg("ToString::to_string")
     def m_to_string(it, args, callee):
+        v = deref(args[0])
+        if "<char as " in callee and not isinstance(v, (Str, SString, Agg, Opaque)):
+            return SString([v])
         return SString(elems_of(args[0]))
 
     @reg("Into::into", "From::from")
@@ -1204,6 +1213,10 @@ def register_all(M):
             if o.variant == 0:
                 return UNIT
             v = o.fields[0]
+            if isinstance(dst, SMap):
+                k2, v2 = deref(v).fields
+                M.table["HashMap::insert"](it, [args[0], k2, v2], "HashMap::insert")
+                continue
             if isinstance(dst, SString):
                 dv = deref(v)
                 if isinstance(dv, (Str, SString)):
@@ -1242,6 +1255,61 @@ def register_all(M):
         n = as_int(it, args[1], 0, 64, "truncate length")
         del v.items[n:]
         return UNIT
+
+    @reg("Vec::append")
+    def m_vec_append(it, args, callee):
+        dst, src = deref(args[0]), deref(args[1])
+        dst.items.extend(src.items)
+        del src.items[:]
+        return UNIT
+
+    @reg("Vec::extend_from_slice")
+    def m_vec_extend_from_slice(it, args, callee):
+        dst = deref(args[0])
+        s = slice_of(args[1])
+        from .values import deep_copy as _dc
+        dst.items.extend(_dc(x) for x in s.items[s.lo:s.hi])
+        return UNIT
+
+    @reg("Vec::swap_remove")
+    def m_vec_swap_remove(it, args, callee):
+        v = deref(args[0])
+        i = as_int(it, args[1], 0, 64, "swap_remove index")
+        if i >= len(v.items):
+            raise PanicPath("swap_remove index (is %d) should be < len (is %d)" % (i, len(v.items)))
+        x = v.items[i]
+        v.items[i] = v.items[-1]
+        v.items.pop()
+        return x
+
+    @reg("Vec::split_off")
+    def m_vec_split_off(it, args, callee):
+        v = deref(args[0])
+        n = as_int(it, args[1], 0, 64, "split_off index")
+        if n > len(v.items):
+            raise PanicPath("`at` split index (is %d) should be <= len (is %d)" % (n, len(v.items)))
+        tail = SVec(v.items[n:])
+        del v.items[n:]
+        return tail
+
+    @reg("Vec::retain", "Vec::retain_mut")
+    def m_vec_retain(it, args, callee):
+        v = deref(args[0])
+        keep = []
+        for i, x in enumerate(list(v.items)):
+            cell = [x]
+            if it.st.branch(it.call_value(args[1], [Ref(cell, 0, "retain_mut" in callee)])):
+                keep.append(cell[0])
+        v.items[:] = keep
+        return UNIT
+
+    @reg("Vec::contains", "slice::contains")
+    def m_vec_contains(it, args, callee):
+        s = slice_of(args[0])
+        for x in s.items[s.lo:s.hi]:
+            if it.st.branch(m_eq(it, [Ref([x], 0), args[1]], "PartialEq::eq")):
+                return True
+        return False
 
     @reg("Vec::dedup")
     def m_vec_dedup(it, args, callee):
@@ -1619,7 +1687,11 @@ def register_all(M):
             return str_eq(part, p)
         if not el:
             return False
-        return char_eq(el[0] if "starts_with" in callee else el[-1], pat)
+        ch = el[0] if "starts_with" in callee else el[-1]
+        dp = deref(pat) if isinstance(pat, Ref) else pat
+        if isinstance(dp, FnItem) or (isinstance(dp, Agg) and dp.kind.startswith("closure:")) or callable(dp):
+            return it.call_value(pat, [ch])      # a predicate pattern: FnMut(char) -> bool
+        return char_eq(ch, pat)
 
     @reg("Option::unwrap_or")
     def m_unwrap_or(it, args, callee):
@@ -1743,3 +1815,746 @@ def register_all(M):
         old = c.fields[0]
         c.fields[0] = args[1]
         return old
+
+    # ================================================================================= further std models
+    # Not needed by the pinned tree: they exist so that a refactor which reaches for another std helper is executed rather than refused.
+    # Each follows the std documentation on code-point sequences / finite lists; a wrong model cannot cause a false report (every
+    # counterexample is re-found natively before it is reported) - it shows up as a disagreement in the witness validation.
+
+    def method_name(callee):
+        return strip_generics(callee.strip()).split("::")[-1]
+
+    def is_pred(p):
+        dp = deref(p) if isinstance(p, Ref) else p
+        return isinstance(dp, FnItem) or (isinstance(dp, Agg) and dp.kind.startswith("closure:")) or callable(dp)
+
+    def char_matches(it, ch, pat):
+        """Does the char match a `Pattern` that is a char, a predicate or a slice of chars -> Python bool (forks when symbolic)."""
+        dp = deref(pat) if isinstance(pat, Ref) else pat
+        if is_pred(pat):
+            return it.st.branch(it.call_value(pat, [ch]))
+        if isinstance(dp, (Slice, SVec)) or (isinstance(dp, Agg) and dp.kind == "array"):
+            sl = slice_of(dp)
+            for k in range(sl.lo, sl.hi):
+                if it.st.branch(char_eq(ch, sl.items[k])):
+                    return True
+            return False
+        if isinstance(dp, (Str, SString)):
+            raise Unsupported("string pattern where a char pattern is modelled")
+        return it.st.branch(char_eq(ch, dp))
+
+    @reg("Iterator::find")
+    def m_iter_find(it, args, callee):
+        src = deref(args[0])
+        while True:
+            o = src.next(it)
+            if o.variant == 0:
+                return o
+            if it.st.branch(it.call_value(args[1], [Ref([o.fields[0]], 0)])):
+                return o
+
+    @reg("Iterator::find_map")
+    def m_iter_find_map(it, args, callee):
+        src = deref(args[0])
+        while True:
+            o = src.next(it)
+            if o.variant == 0:
+                return o
+            r = option_of(it.call_value(args[1], [o.fields[0]]))
+            if r.variant == 1:
+                return r
+
+    class ItFilterMap(It):
+        def __init__(self, inner, f):
+            self.inner, self.f = inner, f
+
+        def next(self, it):
+            while True:
+                o = self.inner.next(it)
+                if o.variant == 0:
+                    return o
+                r = option_of(it.call_value(self.f, [o.fields[0]]))
+                if r.variant == 1:
+                    return r
+
+    @reg("Iterator::filter_map")
+    def m_iter_filter_map(it, args, callee):
+        return ItFilterMap(to_iter(it, args[0]), args[1])
+
+    class ItChain(It):
+        def __init__(self, a, b):
+            self.a, self.b = a, b
+
+        def next(self, it):
+            if self.a is not None:
+                o = self.a.next(it)
+                if o.variant == 1:
+                    return o
+                self.a = None
+            return self.b.next(it)
+
+    @reg("Iterator::chain")
+    def m_iter_chain(it, args, callee):
+        return ItChain(to_iter(it, args[0]), to_iter(it, args[1]))
+
+    class ItWhile(It):
+        def __init__(self, inner, f, take):
+            self.inner, self.f, self.take, self.done = inner, f, take, False
+
+        def next(self, it):
+            if self.take:
+                if self.done:
+                    return none()
+                o = self.inner.next(it)
+                if o.variant == 0:
+                    return o
+                if it.st.branch(it.call_value(self.f, [Ref([o.fields[0]], 0)])):
+                    return o
+                self.done = True
+                return none()
+            while not self.done:
+                o = self.inner.next(it)
+                if o.variant == 0:
+                    return o
+                if not it.st.branch(it.call_value(self.f, [Ref([o.fields[0]], 0)])):
+                    self.done = True
+                    return o
+            return self.inner.next(it)
+
+    @reg("Iterator::take_while")
+    def m_iter_take_while(it, args, callee):
+        return ItWhile(to_iter(it, args[0]), args[1], True)
+
+    @reg("Iterator::skip_while")
+    def m_iter_skip_while(it, args, callee):
+        return ItWhile(to_iter(it, args[0]), args[1], False)
+
+    class ItCloned(It):
+        def __init__(self, inner):
+            self.inner = inner
+
+        def next(self, it):
+            o = self.inner.next(it)
+            if o.variant == 0:
+                return o
+            return some(m_clone(it, [o.fields[0]], "Clone::clone"))
+
+        def next_back(self, it):
+            o = self.inner.next_back(it)
+            if o.variant == 0:
+                return o
+            return some(m_clone(it, [o.fields[0]], "Clone::clone"))
+
+    @reg("Iterator::cloned", "Iterator::copied")
+    def m_iter_cloned(it, args, callee):
+        return ItCloned(to_iter(it, args[0]))
+
+    class ItPeekable(It):
+        def __init__(self, inner):
+            self.inner, self.buf = inner, None
+
+        def next(self, it):
+            if self.buf is not None:
+                o, self.buf = self.buf, None
+                return o
+            return self.inner.next(it)
+
+        def peek(self, it):
+            if self.buf is None:
+                self.buf = self.inner.next(it)
+            return self.buf
+
+    @reg("Iterator::peekable")
+    def m_iter_peekable(it, args, callee):
+        return ItPeekable(to_iter(it, args[0]))
+
+    @reg("Peekable::peek")
+    def m_peek(it, args, callee):
+        o = deref(args[0]).peek(it)
+        return some(Ref(o.fields, 0)) if o.variant == 1 else none()
+
+    @reg("Iterator::all")
+    def m_iter_all(it, args, callee):
+        src = deref(args[0])
+        while True:
+            o = src.next(it)
+            if o.variant == 0:
+                return True
+            if not it.st.branch(it.call_value(args[1], [o.fields[0]])):
+                return False
+
+    @reg("Iterator::for_each")
+    def m_iter_for_each(it, args, callee):
+        src = to_iter(it, args[0])
+        while True:
+            o = src.next(it)
+            if o.variant == 0:
+                return UNIT
+            it.call_value(args[1], [o.fields[0]])
+
+    @reg("Iterator::sum")
+    def m_iter_sum(it, args, callee):
+        src = to_iter(it, args[0])
+        total = 0
+        while True:
+            o = src.next(it)
+            if o.variant == 0:
+                return total
+            total = add_vals(total, deref(o.fields[0]))
+
+    @reg("Iterator::rposition")
+    def m_iter_rposition(it, args, callee):
+        src = to_iter(it, args[0])
+        items = []
+        while True:
+            o = src.next(it)
+            if o.variant == 0:
+                break
+            items.append(o.fields[0])
+        for i in range(len(items) - 1, -1, -1):
+            if it.st.branch(it.call_value(args[1], [items[i]])):
+                return some(i)
+        return none()
+
+    @reg("Iterator::max_by_key", "Iterator::min_by_key")
+    def m_iter_by_key(it, args, callee):
+        src = to_iter(it, args[0])
+        want_max = "max_by_key" in callee
+        best, best_k = None, None
+        while True:
+            o = src.next(it)
+            if o.variant == 0:
+                return some(best) if best is not None else none()
+            v = o.fields[0]
+            k = it.call_value(args[1], [Ref([v], 0)])
+            if best is None:
+                best, best_k = v, k
+                continue
+            if isinstance(k, Agg) or isinstance(best_k, Agg):
+                raise Unsupported("max_by_key / min_by_key with an aggregate key")
+            # max_by_key returns the last maximum, min_by_key the first minimum
+            better = simp(z3.UGE(bv(k, 64), bv(best_k, 64))) if want_max else simp(z3.ULT(bv(k, 64), bv(best_k, 64)))
+            if (better if isinstance(better, bool) else it.st.branch(better)):
+                best, best_k = v, k
+
+    # ----------------------------------------------------------------- Option / Result combinators
+    @reg("Option::or")
+    def m_opt_or(it, args, callee):
+        o = option_of(args[0])
+        return o if o.variant == 1 else args[1]
+
+    @reg("Option::and")
+    def m_opt_and(it, args, callee):
+        o = option_of(args[0])
+        return args[1] if o.variant == 1 else none()
+
+    @reg("Option::xor")
+    def m_opt_xor(it, args, callee):
+        a, b = option_of(args[0]), option_of(args[1])
+        if a.variant == 1 and b.variant == 0:
+            return a
+        if a.variant == 0 and b.variant == 1:
+            return b
+        return none()
+
+    @reg("Option::map_or_else")
+    def m_opt_map_or_else(it, args, callee):
+        o = option_of(args[0])
+        return it.call_value(args[2], [o.fields[0]]) if o.variant == 1 else it.call_value(args[1], [])
+
+    @reg("Option::ok_or_else")
+    def m_opt_ok_or_else(it, args, callee):
+        o = option_of(args[0])
+        return ok(o.fields[0]) if o.variant == 1 else err(it.call_value(args[1], []))
+
+    @reg("Option::zip")
+    def m_opt_zip(it, args, callee):
+        a, b = option_of(args[0]), option_of(args[1])
+        if a.variant == 1 and b.variant == 1:
+            return some(Agg("tuple", None, [a.fields[0], b.fields[0]]))
+        return none()
+
+    @reg("Option::is_none_or")
+    def m_opt_is_none_or(it, args, callee):
+        o = option_of(args[0])
+        return True if o.variant == 0 else it.call_value(args[1], [o.fields[0]])
+
+    @reg("Option::insert", "Option::replace")
+    def m_opt_insert(it, args, callee):
+        r = args[0]
+        old = option_of(r)
+        cell = some(args[1])
+        r.set(cell)
+        if method_name(callee).startswith("replace"):
+            return old
+        return Ref(cell.fields, 0, True)
+
+    @reg("Option::get_or_insert_with", "Option::get_or_insert")
+    def m_opt_get_or_insert(it, args, callee):
+        r = args[0]
+        o = option_of(r)
+        if o.variant == 0:
+            v = it.call_value(args[1], []) if "with" in method_name(callee) else args[1]
+            o = some(v)
+            r.set(o)
+        return Ref(o.fields, 0, True)
+
+    @reg("Option::as_deref", "Option::as_deref_mut")
+    def m_opt_as_deref(it, args, callee):
+        o = option_of(args[0])
+        if o.variant == 0:
+            return none()
+        v = deref(o.fields[0])
+        if isinstance(v, (Str, SString)):
+            return some(Str(v.elems))
+        return some(Ref(o.fields, 0))
+
+    @reg("Option::inspect")
+    def m_opt_inspect(it, args, callee):
+        o = option_of(args[0])
+        if o.variant == 1:
+            it.call_value(args[1], [Ref(o.fields, 0)])
+        return o
+
+    @reg("Result::map_err")
+    def m_res_map_err(it, args, callee):
+        o = option_of(args[0])
+        return o if o.variant == 0 else err(it.call_value(args[1], [o.fields[0]]))
+
+    @reg("Result::unwrap_or_else")
+    def m_res_unwrap_or_else(it, args, callee):
+        o = option_of(args[0])
+        return o.fields[0] if o.variant == 0 else it.call_value(args[1], [o.fields[0]])
+
+    @reg("Result::or_else")
+    def m_res_or_else(it, args, callee):
+        o = option_of(args[0])
+        return o if o.variant == 0 else it.call_value(args[1], [o.fields[0]])
+
+    @reg("Result::err")
+    def m_res_err(it, args, callee):
+        o = option_of(args[0])
+        return some(o.fields[0]) if o.variant == 1 else none()
+
+    @reg("Result::map_or")
+    def m_res_map_or(it, args, callee):
+        o = option_of(args[0])
+        return it.call_value(args[2], [o.fields[0]]) if o.variant == 0 else args[1]
+
+    @reg("Result::is_ok_and", "Result::is_err_and")
+    def m_res_is_and(it, args, callee):
+        o = option_of(args[0])
+        want = 0 if "is_ok_and" in callee else 1
+        return it.call_value(args[1], [o.fields[0]]) if o.variant == want else False
+
+    # ----------------------------------------------------------------- mem
+    @reg("mem::take")
+    def m_mem_take(it, args, callee):
+        r = args[0]
+        old = r.get()
+        if isinstance(old, SString):
+            r.set(SString([]))
+        elif isinstance(old, SVec):
+            r.set(SVec([]))
+        elif isinstance(old, SMap):
+            r.set(SMap(old.name))
+        elif isinstance(old, Agg) and old.kind == "adt:Option":
+            r.set(none())
+        elif isinstance(old, bool):
+            r.set(False)
+        elif isinstance(old, int) or is_sym(old):
+            r.set(0)
+        else:
+            raise Unsupported("mem::take of %r" % (old,))
+        return old
+
+    @reg("mem::replace")
+    def m_mem_replace(it, args, callee):
+        r = args[0]
+        old = r.get()
+        r.set(args[1])
+        return old
+
+    @reg("mem::swap")
+    def m_mem_swap(it, args, callee):
+        a, b = args[0], args[1]
+        x, y = a.get(), b.get()
+        a.set(y)
+        b.set(x)
+        return UNIT
+
+    # ----------------------------------------------------------------- HashMap: entry API and friends
+    @reg("HashMap::get_mut")
+    def m_map_get_mut(it, args, callee):
+        o = m_map_get(it, args, callee)
+        if o.variant == 1:
+            r = o.fields[0]
+            return some(Ref(r.items, r.index, True)) if hasattr(r, "items") else o
+        return o
+
+    @reg("HashMap::entry")
+    def m_map_entry(it, args, callee):
+        return Agg("adt:MapEntry", None, [args[0], SString(elems_of(args[1]))])
+
+    def entry_slot(it, e, make):
+        m = deref(e.fields[0])
+        key = elems_of(e.fields[1])
+        i = map_find(it, m, key)
+        if i is None and m.oracle is not None:
+            v = m.oracle(it, m, key)
+            if v is not None:
+                m.entries.append([tuple(key), v])
+                i = len(m.entries) - 1
+        if i is None:
+            m.entries.append([tuple(key), make()])
+            i = len(m.entries) - 1
+        return Ref(m.entries[i], 1, True)
+
+    @reg("Entry::or_insert")
+    def m_entry_or_insert(it, args, callee):
+        return entry_slot(it, args[0], lambda: args[1])
+
+    @reg("Entry::or_insert_with")
+    def m_entry_or_insert_with(it, args, callee):
+        return entry_slot(it, args[0], lambda: it.call_value(args[1], []))
+
+    @reg("Entry::or_default")
+    def m_entry_or_default(it, args, callee):
+        t = callee
+        def make():
+            if "Vec<" in t:
+                return SVec([])
+            if "String" in t.split(",")[-1]:
+                return SString([])
+            raise Unsupported("Entry::or_default for %s" % t)
+        return entry_slot(it, args[0], make)
+
+    @reg("Entry::and_modify")
+    def m_entry_and_modify(it, args, callee):
+        e = args[0]
+        m = deref(e.fields[0])
+        i = map_find(it, m, elems_of(e.fields[1]))
+        if i is not None:
+            it.call_value(args[1], [Ref(m.entries[i], 1, True)])
+        return e
+
+    @reg("HashMap::extend")
+    def m_map_extend(it, args, callee):
+        src = to_iter(it, args[1])
+        while True:
+            o = src.next(it)
+            if o.variant == 0:
+                return UNIT
+            k, v = deref(o.fields[0]).fields
+            m_map_insert(it, [args[0], k, v], "HashMap::insert")
+
+    @reg("HashMap::remove_entry")
+    def m_map_remove_entry(it, args, callee):
+        m = deref(args[0])
+        i = map_find(it, m, elems_of(args[1]))
+        if i is None:
+            return none()
+        k, v = m.entries.pop(i)
+        return some(Agg("tuple", None, [SString(k), v]))
+
+    # ----------------------------------------------------------------- str / String helpers
+    def trim_range(it, el, pat, start, end):
+        lo, hi = 0, len(el)
+        if start:
+            while lo < hi and char_matches(it, el[lo], pat):
+                lo += 1
+        if end:
+            while hi > lo and char_matches(it, el[hi - 1], pat):
+                hi -= 1
+        return lo, hi
+
+    @reg("str::trim_matches", "str::trim_start_matches", "str::trim_end_matches")
+    def m_trim_matches(it, args, callee):
+        el = list(elems_of(args[0]))
+        name = method_name(callee)
+        lo, hi = trim_range(it, el, args[1], name != "trim_end_matches", name != "trim_start_matches")
+        return Str(el[lo:hi])
+
+    WS = [0x09, 0x0A, 0x0B, 0x0C, 0x0D, 0x20, 0x85, 0xA0, 0x1680, 0x2028, 0x2029, 0x202F, 0x205F, 0x3000] + list(range(0x2000, 0x200B))
+
+    @reg("str::trim", "str::trim_start", "str::trim_end")
+    def m_trim(it, args, callee):
+        el = list(elems_of(args[0]))
+        name = method_name(callee)
+        ws = Slice([c for c in WS])
+        lo, hi = trim_range(it, el, ws, name != "trim_end", name != "trim_start")
+        return Str(el[lo:hi])
+
+    @reg("char::is_whitespace")
+    def m_char_is_ws(it, args, callee):
+        c = deref(args[0])
+        if not is_sym(c):
+            return c in WS
+        return simp(z3.Or([c == w for w in WS]))
+
+    @reg("str::strip_prefix", "str::strip_suffix")
+    def m_strip(it, args, callee):
+        el = list(elems_of(args[0]))
+        pre = "strip_prefix" in callee
+        dp = deref(args[1]) if isinstance(args[1], Ref) else args[1]
+        if isinstance(dp, (Str, SString)):
+            p = list(elems_of(dp))
+            if len(p) > len(el):
+                return none()
+            part = el[:len(p)] if pre else el[len(el) - len(p):]
+            if it.st.branch(str_eq(part, p)):
+                return some(Str(el[len(p):] if pre else el[:len(el) - len(p)]))
+            return none()
+        if not el:
+            return none()
+        if char_matches(it, el[0] if pre else el[-1], args[1]):
+            return some(Str(el[1:] if pre else el[:-1]))
+        return none()
+
+    @reg("str::rfind")
+    def m_str_rfind(it, args, callee):
+        el = list(elems_of(args[0]))
+        ps = prefix_sums(el)
+        dp = deref(args[1]) if isinstance(args[1], Ref) else args[1]
+        if isinstance(dp, (Str, SString)):
+            p = list(elems_of(dp))
+            for i in range(len(el) - len(p), -1, -1):
+                if it.st.branch(str_eq(el[i:i + len(p)], p)):
+                    return some(ps[i])
+            return none()
+        for i in range(len(el) - 1, -1, -1):
+            if char_matches(it, el[i], args[1]):
+                return some(ps[i])
+        return none()
+
+    @reg("str::split_once", "str::rsplit_once")
+    def m_split_once(it, args, callee):
+        el = list(elems_of(args[0]))
+        dp = deref(args[1]) if isinstance(args[1], Ref) else args[1]
+        plen = len(elems_of(dp)) if isinstance(dp, (Str, SString)) else 1
+        order = range(len(el) - plen, -1, -1) if "rsplit_once" in callee else range(0, len(el) - plen + 1)
+        for i in order:
+            hit = it.st.branch(str_eq(el[i:i + plen], list(elems_of(dp)))) if isinstance(dp, (Str, SString)) else char_matches(it, el[i], args[1])
+            if hit:
+                return some(Agg("tuple", None, [Str(el[:i]), Str(el[i + plen:])]))
+        return none()
+
+    @reg("str::split", "str::rsplit", "str::split_terminator", "str::splitn", "str::split_whitespace", "str::lines")
+    def m_str_split(it, args, callee):
+        el = list(elems_of(args[0]))
+        name = method_name(callee)
+        if name == "splitn":
+            raise Unsupported("str::splitn")
+        pat = Slice(list(WS)) if name == "split_whitespace" else (0x0A if name == "lines" else args[1])
+        dp = deref(pat) if isinstance(pat, Ref) else pat
+        if isinstance(dp, (Str, SString)):
+            raise Unsupported("str::split with a string pattern")
+        parts, cur = [], []
+        for ch in el:
+            if char_matches(it, ch, pat):
+                parts.append(cur)
+                cur = []
+            else:
+                cur.append(ch)
+        parts.append(cur)
+        if name in ("split_terminator", "lines") and parts and not parts[-1]:
+            parts.pop()
+        if name == "split_whitespace":
+            parts = [p for p in parts if p]
+        if name == "rsplit":
+            parts.reverse()
+        return ItOwned([Str(p) for p in parts])
+
+    @reg("str::is_ascii")
+    def m_str_is_ascii(it, args, callee):
+        conds = []
+        for c in elems_of(args[0]):
+            if is_sym(c):
+                conds.append(z3.ULT(c, 0x80))
+            elif c >= 0x80:
+                return False
+        return simp(z3.And(conds)) if conds else True
+
+    @reg("str::repeat")
+    def m_str_repeat(it, args, callee):
+        n = as_int(it, args[1], 0, 16, "repeat count")
+        return SString(list(elems_of(args[0])) * n)
+
+    @reg("str::to_ascii_lowercase", "str::to_ascii_uppercase", "str::to_lowercase", "str::to_uppercase")
+    def m_str_case(it, args, callee):
+        name = method_name(callee)
+        out = []
+        for c in elems_of(args[0]):
+            if "ascii" not in name and (is_sym(c) or c >= 0x80):
+                # full Unicode case mapping: only for text the run pins to ASCII
+                if is_sym(c):
+                    if it.st.branch(simp(z3.UGE(c, 0x80))):
+                        raise Unsupported("%s of a non-ASCII character (Unicode tables)" % name)
+                else:
+                    raise Unsupported("%s of a non-ASCII character (Unicode tables)" % name)
+            out.append(m_char_ascii_case(it, [c], "char::to_ascii_lowercase" if "lower" in name else "char::to_ascii_uppercase"))
+        return SString(out)
+
+    @reg("str::eq_ignore_ascii_case")
+    def m_str_eq_ic(it, args, callee):
+        a = [m_char_ascii_case(it, [c], "char::to_ascii_lowercase") for c in elems_of(args[0])]
+        b = [m_char_ascii_case(it, [c], "char::to_ascii_lowercase") for c in elems_of(args[1])]
+        return str_eq(a, b)
+
+    @reg("char::eq_ignore_ascii_case")
+    def m_char_eq_ic(it, args, callee):
+        return char_eq(m_char_ascii_case(it, [deref(args[0])], "char::to_ascii_lowercase"), m_char_ascii_case(it, [deref(args[1])], "char::to_ascii_lowercase"))
+
+    @reg("str::is_char_boundary")
+    def m_is_char_boundary(it, args, callee):
+        ps = prefix_sums(list(elems_of(args[0])))
+        off = args[1]
+        conds = [char_eq(p, off) if (is_sym(p) or is_sym(off)) else (p == off) for p in ps]
+        if any(c is True for c in conds):
+            return True
+        live = [c for c in conds if c is not False]
+        return simp(z3.Or(live)) if live else False
+
+    @reg("String::retain")
+    def m_string_retain(it, args, callee):
+        s2 = deref(args[0])
+        s2.elems[:] = [c for c in list(s2.elems) if it.st.branch(it.call_value(args[1], [c]))]
+        return UNIT
+
+    @reg("String::split_off")
+    def m_string_split_off(it, args, callee):
+        s2 = deref(args[0])
+        k = byte_to_index(it, s2.elems, args[1], "String::split_off")
+        tail = SString(s2.elems[k:])
+        del s2.elems[k:]
+        return tail
+
+    @reg("String::extend")
+    def m_string_extend(it, args, callee):
+        return m_extend(it, args, "Extend::extend")
+
+    # ----------------------------------------------------------------- Vec / slice helpers
+    @reg("Vec::reverse", "slice::reverse")
+    def m_vec_reverse(it, args, callee):
+        s = slice_of(args[0])
+        part = s.items[s.lo:s.hi]
+        part.reverse()
+        s.items[s.lo:s.hi] = part
+        return UNIT
+
+    @reg("Vec::swap", "slice::swap")
+    def m_vec_swap(it, args, callee):
+        s = slice_of(args[0])
+        i = as_int(it, args[1], 0, 64, "swap index")
+        j = as_int(it, args[2], 0, 64, "swap index")
+        n = s.hi - s.lo
+        if i >= n or j >= n:
+            raise PanicPath("index out of bounds: the len is %d but the index is %d" % (n, max(i, j)))
+        s.items[s.lo + i], s.items[s.lo + j] = s.items[s.lo + j], s.items[s.lo + i]
+        return UNIT
+
+    @reg("Vec::first_mut", "Vec::last_mut", "slice::first_mut", "slice::last_mut")
+    def m_vec_first_mut(it, args, callee):
+        s = slice_of(args[0])
+        if s.hi - s.lo == 0:
+            return none()
+        return some(Ref(s.items, s.lo if "first" in method_name(callee) else s.hi - 1, True))
+
+    @reg("Vec::get_mut", "slice::get_mut")
+    def m_vec_get_mut(it, args, callee):
+        s = slice_of(args[0])
+        i = as_int(it, args[1], 0, 64, "get_mut index")
+        if i >= s.hi - s.lo:
+            return none()
+        return some(Ref(s.items, s.lo + i, True))
+
+    @reg("Vec::drain")
+    def m_vec_drain(it, args, callee):
+        v = deref(args[0])
+        r = args[1]
+        n = len(v.items)
+        if isinstance(r, Agg) and r.kind == "adt:RangeFull":
+            lo, hi = 0, n
+        elif isinstance(r, Agg) and r.kind == "adt:Range":
+            lo, hi = as_int(it, r.fields[0], 0, 64, "drain start"), as_int(it, r.fields[1], 0, 64, "drain end")
+        elif isinstance(r, Agg) and r.kind == "adt:RangeTo":
+            lo, hi = 0, as_int(it, r.fields[0], 0, 64, "drain end")
+        elif isinstance(r, Agg) and r.kind == "adt:RangeFrom":
+            lo, hi = as_int(it, r.fields[0], 0, 64, "drain start"), n
+        else:
+            raise Unsupported("Vec::drain with %r" % (r,))
+        if lo > hi or hi > n:
+            raise PanicPath("drain range out of bounds")
+        out = v.items[lo:hi]
+        del v.items[lo:hi]
+        return ItOwned(out)
+
+    @reg("Vec::resize")
+    def m_vec_resize(it, args, callee):
+        v = deref(args[0])
+        n = as_int(it, args[1], 0, 64, "resize length")
+        while len(v.items) > n:
+            v.items.pop()
+        while len(v.items) < n:
+            v.items.append(deep_copy(args[2]))
+        return UNIT
+
+    # ----------------------------------------------------------------- integers
+    @reg("usize::saturating_sub", "u64::saturating_sub", "u32::saturating_sub", "u16::saturating_sub", "u8::saturating_sub")
+    def m_saturating_sub(it, args, callee):
+        a, b = args[0], args[1]
+        if not is_sym(a) and not is_sym(b):
+            return max(a - b, 0)
+        bits = a.size() if is_sym(a) else b.size()
+        return simp(z3.If(z3.UGE(bv(a, bits), bv(b, bits)), bv(a, bits) - bv(b, bits), z3.BitVecVal(0, bits)))
+
+    @reg("usize::checked_sub", "u64::checked_sub", "u32::checked_sub", "u8::checked_sub", "u16::checked_sub")
+    def m_checked_sub(it, args, callee):
+        a, b = args[0], args[1]
+        if not is_sym(a) and not is_sym(b):
+            return some(a - b) if a >= b else none()
+        bits = a.size() if is_sym(a) else b.size()
+        if it.st.branch(simp(z3.UGE(bv(a, bits), bv(b, bits)))):
+            return some(simp(bv(a, bits) - bv(b, bits)))
+        return none()
+
+    @reg("usize::abs_diff", "u64::abs_diff", "u32::abs_diff", "u8::abs_diff")
+    def m_abs_diff(it, args, callee):
+        a, b = args[0], args[1]
+        if not is_sym(a) and not is_sym(b):
+            return abs(a - b)
+        bits = a.size() if is_sym(a) else b.size()
+        return simp(z3.If(z3.UGE(bv(a, bits), bv(b, bits)), bv(a, bits) - bv(b, bits), bv(b, bits) - bv(a, bits)))
+
+    @reg("usize::wrapping_sub", "u64::wrapping_sub", "u8::wrapping_sub", "u32::wrapping_sub")
+    def m_wrapping_sub(it, args, callee):
+        a, b = args[0], args[1]
+        bits = next((b for t, b in (("usize", 64), ("u64", 64), ("u32", 32), ("u8", 8)) if "impl " + t in callee or callee.strip().startswith(t + "::")), 64)
+        if not is_sym(a) and not is_sym(b):
+            return (a - b) & ((1 << bits) - 1)
+        return simp(bv(a, bits) - bv(b, bits))
+
+    # ----------------------------------------------------------------- Cell
+    @reg("Cell::new")
+    def m_cell_new(it, args, callee):
+        return Agg("adt:Cell", None, [args[0]])
+
+    @reg("Cell::get")
+    def m_cell_get(it, args, callee):
+        return deref(args[0]).fields[0]
+
+    @reg("Cell::set")
+    def m_cell_set(it, args, callee):
+        deref(args[0]).fields[0] = args[1]
+        return UNIT
+
+    @reg("Cell::replace")
+    def m_cell_replace(it, args, callee):
+        c = deref(args[0])
+        old = c.fields[0]
+        c.fields[0] = args[1]
+        return old
+
+    @reg("Cell::take")
+    def m_cell_take(it, args, callee):
+        return m_mem_take(it, [Ref(deref(args[0]).fields, 0, True)], "mem::take")
